@@ -60,10 +60,10 @@ func keysFor(infos []regInfo, chainRef string) map[common.Address]regInfo {
 
 // signEvent: an accepted signature transaction as the monitor saw it.
 type signEvent struct {
-	Height   int64
-	Keys     map[common.Address]regInfo // what the validator had registered for the chain at that moment
-	SignedBy string
-	Mode     string
+	Height    int64
+	Keys      map[common.Address]regInfo // what the validator had registered for the chain at that moment
+	SignedBy  string
+	Mode      string
 	RegSerial int // serial number of the validator's registration in force
 }
 
